@@ -106,6 +106,26 @@ def run(tier, seed):
             events += sum(1 for _ in open(tp))
             xjobs.append((deg, tp))
     byid = {sc["id"]: sc for sc in scs}
+    # The debug build validates the declared constraint degrees against the trace at hand (a developer aid of the prover).  Over the
+    # harness field a random column polynomial has a vanishing top coefficient with probability 1/40961, and a constraint on it then has
+    # a lower degree than declared: a degenerate but valid trace (C01: "including degenerate ones").  Such statements are judged in the
+    # build without debug assertions, where the composition is compared with its definition as for every other statement.
+    degen = [p for p in panics if "transition constraint degrees" in p["what"]]
+    panics = [p for p in panics if "transition constraint degrees" not in p["what"]]
+    if degen:
+        exe_rel = vlib.build_harness("rel")
+        base = [byid[i] for i in sorted({p["id"] for p in degen if p["id"] in byid})]
+        sp = os.path.join(wd, "scs_degenerate.ndjson")
+        vlib.write_ndjson(sp, base)
+        tp = os.path.join(wd, "trace_degenerate.ndjson")
+        rc, out, err = vlib.run_harness(exe_rel, ["comp", "--scenarios", sp, "--out", tp], timeout=900)
+        if rc != 0:
+            raise vlib.ToolError("comp harness (release build, degenerate traces) rc=%s: %s" % (rc, err[-400:]))
+        panics += json.loads(out)["panics"]
+        events += sum(1 for _ in open(tp))
+        jobs.append(tp)
+        v.note("%d statements whose trace has a column of lower degree than the trace length allows (debug-only degree validation of the prover fires): "
+               "judged in the build without debug assertions" % len(base))
     for p in panics:
         v.violation("comp/panic/" + p["what"], "building the composition polynomial panics: %s" % p["what"], byid.get(p["id"]))
 
